@@ -617,7 +617,7 @@ class Body:
                 else:
                     out.append((pos, d))
             return out
-        if k == 'vfield' and t[2] in ('Break', 'Continue'):
+        if k == 'vfield' and t[2] in ('Break', 'Continue') and deep_strip(t[1])[0] == 'call' and canon(deep_strip(t[1])[1]).endswith('Try::branch'):
             return None      # the residual of `?`: read by return_terms()/_failure_alternatives, not a payload selection
         if k in ('ok', 'vfield'):
             base = deep_strip(t[1])
